@@ -443,7 +443,7 @@ pub fn k7(dir: &str, thorough: bool, seed: u64) {
                 // planted shapes: the witnesses of the repaired cache / domain defects (D1-D5, D10), with domains that are
                 // non-empty for disjoint sets of colours, an empty domain, and random wild-card sets
                 let valid = xg.valid_colours();
-                if k >= 1 && valid.len() >= 1 {
+                if k >= 1 && valid.len() >= 1 && (!thorough || round % 4 == 0) {
                     let a0 = xg.var_names[0].clone();
                     let half: Vec<usize> = valid.iter().cloned().filter(|c| (c + round) % 2 == 0).collect();
                     let mut ctx = rand_ctx(&mut rng, &xg, &["p", "q"]);
@@ -502,7 +502,7 @@ pub fn k7(dir: &str, thorough: bool, seed: u64) {
                             ("(3{x}: @{x}: ", ")"), ("(3{x} in %s%: @{x}: ", ")"), ("(!{x} in %d%: ", ")"), ("(V{x} in %e%: ", ")"),
                             ("(3{x} in %z%: ", ")"), ("(!{x}: ", ")"),
                         ];
-                        let n_pairs = if thorough { 40 } else { 6 };
+                        let n_pairs = if thorough { 16 } else { 6 };
                         for _ in 0..n_pairs {
                             let g = rng.pick(&subs).clone();
                             let (a1, b1) = ctxs[rng.below(ctxs.len())];
